@@ -31,6 +31,7 @@ package keeper
 //@ ensures [aggregate_is_the_one_for_this_deposit_and_index] err == nil ==> arg(GetAggregateByIndex, index) == reportIndex && arg(GetAggregateByIndex, queryId) == ret(GetDepositQueryId, 0) && arg(GetDepositQueryId, depositId) == depositId && arg(DecodeDepositReportValue, reportValue) == ret(GetAggregateByIndex, 0).AggregateValue
 //@ ensures [report_at_least_twelve_hours_old] err == nil ==> blocktime(ctx) - ret(GetAggregateByIndex, 1) >= 43200000000000
 //@ ensures [mints_exactly_the_decoded_amount] err == nil ==> bank.supply == old(bank.supply) + coins(ret(DecodeDepositReportValue, 1))
+//@ ensures [mints_the_amount_field_of_the_reported_deposit_in_loya] err == nil && abidec_int("address,string,uint256,uint256", hexdec(ret(GetAggregateByIndex, 0).AggregateValue), 2) / 1000000000000 < 9223372036854775808 ==> bank.supply == old(bank.supply) + abidec_int("address,string,uint256,uint256", hexdec(ret(GetAggregateByIndex, 0).AggregateValue), 2) / 1000000000000
 //@ ensures [nothing_minted_on_failure_before_mint] err != nil && bank.supply != old(bank.supply) ==> bank.supply == old(bank.supply) + coins(ret(DecodeDepositReportValue, 1))
 //@ ensures [bridge_account_keeps_nothing] err == nil && acc(ret(DecodeDepositReportValue, 0)) != module("bridge") ==> bank.bal[module("bridge")] == old(bank.bal[module("bridge")])
 
@@ -50,6 +51,8 @@ package keeper
 //@ ensures [other_accounts_untouched] forall a addr :: a != acc(sender) && a != module("bridge") ==> bank.bal[a] == old(bank.bal[a])
 //@ ensures [fresh_strictly_increasing_id] err == nil ==> id == (old(has(bridge.WithdrawalId)) ? old(bridge.WithdrawalId.Id) + 1 : 1) && has(bridge.WithdrawalId) && bridge.WithdrawalId.Id == id
 //@ ensures [aggregate_published_under_the_withdrawal_query] err == nil ==> called(SetAggregate) && arg(SetAggregate, report) == ret(CreateWithdrawalAggregate, 0) && arg(CreateWithdrawalAggregate, withdrawalId) == id && arg(CreateWithdrawalAggregate, amount) == amount
+
+//@ ensures [published_aggregate_encodes_recipient_sender_amount_under_the_withdrawal_query_id] err == nil ==> hexdec(arg(SetAggregate, report).AggregateValue) == abienc("address,string,uint256,uint256", ethaddr(bytes(recipient)), accstr(sender), amount.Amount, 0) && bytes(arg(SetAggregate, report).QueryId) == keccak(abienc("string,bytes", "TRBBridge", abienc("bool,uint256", false, id)))
 
 //@ func (k msgServer).WithdrawTokens(goCtx, msg) (resp, err)
 //@ requires [msg_present] msg != nil
@@ -201,3 +204,26 @@ package keeper
 //@ func (k Keeper).EncodeOracleAttestationData(queryId, value, timestamp, aggregatePower, previousTimestamp, nextTimestamp, valsetCheckpoint, attestationTimestamp) (digest, err)
 //@ ensures [digest_is_keccak_of_the_domain_separated_report_fields_in_contract_order] err == nil ==> bytes(digest) == keccak(abienc("bytes32,bytes32,bytes,uint256,uint256,uint256,uint256,bytes32,uint256", pad(hexdec("74656c6c6f7243757272656e744174746573746174696f6e0000000000000000"), 32), pad(bytes(queryId), 32), hexdec(value), timestamp, aggregatePower, previousTimestamp, nextTimestamp, pad(bytes(valsetCheckpoint), 32), attestationTimestamp))
 //@ ensures [malformed_value_is_rejected] !ishexbytes(value) ==> err != nil
+
+// ---- decoding a deposit report (C14) ----
+// The value reported for a deposit query is abi.encode(sender, recipient, amount, tip) of TokenBridge.DepositDetails
+// (pinned by the sweep sol_encodings). abidec_*("types", data, i) is the i-th value go-ethereum's Unpack decodes.
+// Amounts are in 10^-18 TRB on the EVM side and in loya (10^-6 TRB) here.
+
+//@ define depfield_int(v, i) = abidec_int("address,string,uint256,uint256", hexdec(v), i)
+
+//@ func (k Keeper).DecodeDepositReportValue(ctx, reportValue) (recipient, amount, tip, err)
+//@ ensures [recipient_is_the_second_field] err == nil ==> accstr(bytes(recipient)) == abidec_str("address,string,uint256,uint256", hexdec(reportValue), 1)
+//@ ensures [amount_is_the_third_field_in_loya] err == nil && depfield_int(reportValue, 2) / 1000000000000 < 9223372036854775808 ==> coins(amount) == depfield_int(reportValue, 2) / 1000000000000
+//@ ensures [tip_is_the_fourth_field_in_loya] err == nil && depfield_int(reportValue, 3) / 1000000000000 < 9223372036854775808 ==> coins(tip) == depfield_int(reportValue, 3) / 1000000000000
+//@ ensures [malformed_value_is_rejected] !ishexbytes(reportValue) ==> err != nil
+//@ ensures [reads_only] nothing_written()
+
+// ---- the aggregate published for a withdrawal (C14, C15) ----
+//@ func (k Keeper).CreateWithdrawalAggregate(goCtx, amount, sender, recipient, withdrawalId) (aggregate, err)
+//@ requires [amount_fits_uint64] amount.Amount >= 0 && amount.Amount < 18446744073709551616
+//@ requires [bonded_total_fits_uint64] staking.bonded >= 0 && staking.bonded < 18446744073709551616
+//@ ensures [published_under_the_withdrawal_query_id] err == nil ==> aggregate != nil && bytes(aggregate.QueryId) == keccak(abienc("string,bytes", "TRBBridge", abienc("bool,uint256", false, withdrawalId)))
+//@ ensures [value_encodes_recipient_sender_and_amount] err == nil ==> hexdec(aggregate.AggregateValue) == abienc("address,string,uint256,uint256", ethaddr(bytes(recipient)), accstr(sender), amount.Amount, 0) && ishexbytes(aggregate.AggregateValue)
+//@ ensures [unflagged_with_the_power_of_the_whole_bonded_set] err == nil ==> !aggregate.Flagged && aggregate.ReporterPower == staking.bonded
+//@ ensures [reads_only] nothing_written()
